@@ -79,21 +79,27 @@ main(int argc, char **argv)
 	nng_msleep(50);
 	if ((rv = nng_aio_alloc(&daio, NULL, NULL)) != 0) fatal("aio", rv);
 	nng_device_aio(daio, da, db);
+	int q = 0; // message number (unique per scenario)
 	for (int r = 0; r < rounds; r++) {
 		seed      = seed * 6364136223846793005ull + 1442695040888963407ull;
 		int      p = (int) ((seed >> 33) % (unsigned) np);
-		nng_msg *m;
-		nng_msg_alloc(&m, 0);
-		uint8_t b[3] = { (uint8_t) p, (uint8_t) (r >> 8), (uint8_t) r };
-		nng_msg_append(m, b, 3);
-		// alternate blocking and non-blocking sends: BUS send never blocks
-		rv = nng_sendmsg(peers[p], m, (r & 1) ? NNG_FLAG_NONBLOCK : 0);
-		if (rv != 0) {
-			nng_msg_free(m);
+		// every third round on average is a burst of 8 back-to-back messages of one peer: several
+		// messages of the same origin are then inside the device at the same time (order clause)
+		int      burst = ((seed >> 45) % 3 == 0) ? 8 : 1;
+		for (int i = 0; i < burst && q < 65000; i++, q++) {
+			nng_msg *m;
+			nng_msg_alloc(&m, 0);
+			uint8_t b[3] = { (uint8_t) p, (uint8_t) (q >> 8), (uint8_t) q };
+			nng_msg_append(m, b, 3);
+			// alternate blocking and non-blocking sends: BUS send never blocks
+			rv = nng_sendmsg(peers[p], m, (q & 1) ? NNG_FLAG_NONBLOCK : 0);
+			if (rv != 0) {
+				nng_msg_free(m);
+			}
+			printf("sent %d %d %d\n", p, q, rv);
 		}
-		printf("sent %d %d %d\n", p, r, rv);
 		if ((seed >> 20) % 4 != 0) {
-			drain(np, 20);
+			drain(np, rounds > 100 ? 3 : 20);
 		}
 	}
 	drain(np, 150);
